@@ -38,3 +38,18 @@ Theorem C01_bytes_buffer_independent : forall p k k' v c,
   fl (write_val p k v c) = fl (write_val p k' v c).
 Proof. exact buffer_independent. Qed.
 Print Assumptions C01_bytes_buffer_independent.
+
+(* the writer is balanced (DESIGN 5.1 C01_writer_balanced): on a writer with no bool field pending, every
+   well-typed value is written successfully and leaves the writer's delta context (last field id, id stack,
+   pending slot) exactly as it found it -- for every protocol, buffer kind and STARTING context, so values can
+   follow one another on one writer.  (It is the first conjunct of C01_roundtrip, stated on its own.) *)
+From PV Require Import Proofs.BalanceP.
+Theorem C01_writer_balanced : forall p k v, wt v = true -> forall c, w_pend c = None ->
+  exists ss, write_val p k v c = Ok (ss, c).
+Proof. exact writer_balanced. Qed.
+Print Assumptions C01_writer_balanced.
+
+Theorem C01_writer_balanced_seq : forall p k vs, forallb wt vs = true -> forall c, w_pend c = None ->
+  exists ss, write_vals p k vs c = Ok (ss, c).
+Proof. exact writer_balanced_seq. Qed.
+Print Assumptions C01_writer_balanced_seq.
